@@ -95,10 +95,17 @@ Definition filter_verdict_okb (st : ast) (pid : Z) (verdict : Z) : bool :=
   | None => true
   end.
 
-(* the property of one round, 0 = holds *)
+(* "has passed arbitration" is read off the API object (the annotation), not off the arbitrator's
+   in-memory map: the view of a state in which a job counts as arbitrated iff it is annotated *)
+Definition annot_job (j : job) : job :=
+  mkJob (j_id j) (j_pod j) (j_time j) (j_created j) (j_api j) (j_phase j) (j_passed j) (j_waiting j)
+        (j_passed j) (j_stale j).
+Definition annot_view (st : ast) : ast := mkA (a_pods st) (a_wls st) (map annot_job (a_jobs st)).
+
+(* the property of one round, 0 = holds; budgets are judged on the annotation view *)
 Definition round_code (c : cfg) (st st' : ast) : Z :=
-  if negb (limits_okb c st st') then 1
-  else if negb (unavail_okb c st st') then 2
+  if negb (limits_okb c (annot_view st) (annot_view st')) then 1
+  else if negb (unavail_okb c (annot_view st) (annot_view st')) then 2
   else if negb (outcomes_okb c st (a_jobs st) (a_jobs st')) then 3
   else 0.
 
